@@ -182,10 +182,15 @@ PROPS["C12"] = dict(
 )
 
 PROPS["C13"] = dict(
-    modules=["Sth.Props.C01", "Sth.Props.C08", "Sth.Props.C13", "Sth.Props.C13G", "Sth.Props.C13H"],
-    theorems=list(CORE_RL) + ['Sth.C13_step', 'Sth.C13_current_is_current', 'Sth.C13_current_prefix', 'Sth.C13_step_overwrite', 'Sth.C13_step_remove', 'Sth.C13_step_new_key', 'Sth.C13_step_immutable', 'Sth.C13_step_same_value', 'Sth.C13_step_malformed', 'Sth.C13_step_remove_absent', 'Sth.C13_step_other', 'Sth.C13_recorded_not_current', 'Sth.C13_current_not_recorded', 'Sth.C13_exactly_once', 'Sth.C13_run', 'Sth.C13_file_well_formed', 'Sth.C13_gc_nothing_current_recorded', 'Sth.C13_gc_nothing_current_recorded_cid', 'Sth.C13_gc_consumes', 'Sth.C13_gc_pool_after', 'Sth.C13_gc_covered', 'Sth.C13_gc_exactly_once'],
+    modules=["Sth.Props.C01", "Sth.Props.C08", "Sth.Props.C13", "Sth.Props.C13G", "Sth.Props.C13H", "Sth.Props.C13F"],
+    theorems=list(CORE_RL) + ['Sth.C13_step', 'Sth.C13_current_is_current', 'Sth.C13_current_prefix', 'Sth.C13_step_overwrite', 'Sth.C13_step_remove', 'Sth.C13_step_new_key', 'Sth.C13_step_immutable', 'Sth.C13_step_same_value', 'Sth.C13_step_malformed', 'Sth.C13_step_remove_absent', 'Sth.C13_step_other', 'Sth.C13_recorded_not_current', 'Sth.C13_current_not_recorded', 'Sth.C13_exactly_once', 'Sth.C13_run', 'Sth.C13_file_well_formed', 'Sth.C13_gc_nothing_current_recorded', 'Sth.C13_gc_nothing_current_recorded_cid', 'Sth.C13_gc_consumes', 'Sth.C13_gc_pool_after', 'Sth.C13_gc_covered', 'Sth.C13_gc_exactly_once',
+                               'Sth.C13_concurrent_handover_exactly_once', 'Sth.C13_concurrent_handover_global_fifo', 'Sth.C13_concurrent_handover_puts_of_programs',
+                               'Sth.C13_concurrent_handover_nodup', 'Sth.C13_concurrent_handover_nothing_lost_at_quiescence', 'Sth.C13_concurrent_handover_order',
+                               'Sth.C13_concurrent_handover_file_exists_when_unlocked', 'Sth.C13_concurrent_handover_flush_finds_file',
+                               'Sth.C13_concurrent_handover_lock_exclusive', 'Sth.C13_handover_replay_exactly_once', 'Sth.C13_handover_replayFrom_exactly_once',
+                               'Sth.C13_handover_without_flushlock_loses', 'Sth.C13_handover_two_collectors_loses', 'Sth.C13_example_concurrent_handover', 'Sth.C13_example_replay'],
     runs=[dict(engine="seq", quick=300, thorough=10000, extra=["-profile", "c13"], nontrivial=["freelist-nonempty", "pgc-relocated"]),
-          dict(engine="sched", quick=120, thorough=10000, extra=["-profile", "c13"], nontrivial=["freelist-nonempty"])],
+          dict(engine="sched", quick=120, thorough=10000, extra=["-profile", "c13"], nontrivial=["freelist-nonempty", "freelist-model-agrees", "freelist-model-handover"])],
     rule="C04-style traces (small files, overwrites, removals, flushes, reopen, GC cycles with relocation and deadlines); after every "
          "mutating op the `acct` view lists the locations named by live index entries and the recorded locations (freelist pool + file + "
          ".gc) of the REAL store; the driver checks on those views alone that the locations that stopped being current equal the newly "
